@@ -5,6 +5,7 @@ import (
 	"go/token"
 	"go/types"
 	"sort"
+	"strconv"
 	"strings"
 
 	"golang.org/x/tools/go/ssa"
@@ -85,7 +86,7 @@ func c16(r *core.Run) {
 func c17(r *core.Run) {
 	r.Explanation = "Decided clauses: (R1) every row of interpreter.StringValueParsers and interpreter.BigEndianBytesConverters names one numeric type only (receiver type, bit-size literal, constructor, native Go type, bounds, byte length) " +
 		"and a row exists for every number type; (R2) the parse primitive class per row depends only on signedness/kind: signed integer rows use the signed parser, unsigned and Word rows the unsigned parser; " +
-		"(R3) ToBigEndianBytes / NewTValueFromBigEndianBytes of sibling widths agree modulo the family parameters (or fall into the reviewed classes)."
+		"(R3) ToBigEndianBytes / NewTValueFromBigEndianBytes of sibling widths agree modulo the family parameters (or fall into the reviewed classes); (R4) in the shared fromBigEndianBytes native function only the byte-array error, `byteLength != 0` and `len(bytes) > byteLength` decide between nil and a result."
 	r.NotDecided = "round-trip equality on values; formatting; address/path string constructors."
 	w := r.W
 	p := w.Pkg("interpreter")
@@ -103,6 +104,7 @@ func c17(r *core.Run) {
 	}
 	r.Floor("R1.rows", 48)
 	c17Acceptance(r)
+	c17NilExact(r)
 	siblingRule(r, "R3.siblings", allFamilies, func(g string) bool {
 		return g == "interpreter.(§0Value).ToBigEndianBytes" || g == "interpreter.New§0ValueFromBigEndianBytes" || g == "..(§0).ToBigEndianBytes"
 	})
@@ -221,4 +223,153 @@ func c17Acceptance(r *core.Run) {
 			"row of "+tag+" uses "+gen.Name()+", which "+class+" ("+desc+"); rows of its signedness class must be "+want+" (acceptance may not depend on the width)")
 	}
 	r.Floor("R2.acceptance", 20)
+}
+
+// c17NilExact: R4 — fromBigEndianBytes returns nil exactly for inputs longer than the type's size. In the closure built by
+// NativeFromBigEndianBytesFunction every branch that decides between `return Nil` and the converted result must be one of:
+// the error test of ByteArrayValueToByteSlice (argument is not a byte array), `byteLength != 0` (unbounded types), or
+// `len(bytes) > byteLength`. Any other deciding condition (an emptiness test, `>=`, a second length) changes the nil set.
+func c17NilExact(r *core.Run) {
+	const rule = "R4.nilexact"
+	outer := mustFn(r, rule, "interpreter", "", "NativeFromBigEndianBytesFunction")
+	if outer == nil {
+		return
+	}
+	if len(outer.AnonFuncs) != 1 || len(outer.Params) < 1 {
+		r.Undecided(rule, core.SSAKey(outer), "expected one function literal and the byteLength parameter")
+		return
+	}
+	fn := outer.AnonFuncs[0]
+	lenParam := outer.Params[0]
+	isNilRet := func(ret *ssa.Return) bool {
+		if len(ret.Results) != 1 {
+			return false
+		}
+		if u, ok := core.Unwrap(ret.Results[0]).(*ssa.UnOp); ok && u.Op == token.MUL {
+			if g, ok := u.X.(*ssa.Global); ok && g.Name() == "Nil" {
+				return true
+			}
+		}
+		return false
+	}
+	var nilRets, someRets []*ssa.Return
+	for _, b := range fn.Blocks {
+		for _, in := range b.Instrs {
+			if ret, ok := in.(*ssa.Return); ok {
+				if isNilRet(ret) {
+					nilRets = append(nilRets, ret)
+				} else {
+					someRets = append(someRets, ret)
+				}
+			}
+		}
+	}
+	if len(nilRets) == 0 || len(someRets) == 0 {
+		r.Undecided(rule, core.SSAKey(outer), "the function literal has no `return Nil` or no result return")
+		return
+	}
+	reach := func(from *ssa.BasicBlock, rets []*ssa.Return) bool {
+		seen := map[*ssa.BasicBlock]bool{}
+		var walk func(b *ssa.BasicBlock) bool
+		walk = func(b *ssa.BasicBlock) bool {
+			if seen[b] {
+				return false
+			}
+			seen[b] = true
+			for _, rt := range rets {
+				if rt.Block() == b {
+					return true
+				}
+			}
+			for _, s := range b.Succs {
+				if walk(s) {
+					return true
+				}
+			}
+			return false
+		}
+		return walk(from)
+	}
+	isByteLength := func(v ssa.Value) bool {
+		v = core.Unwrap(v)
+		if cv, ok := v.(*ssa.Convert); ok {
+			v = cv.X
+		}
+		return core.IsParamValue(v, lenParam)
+	}
+	isLenOfBytes := func(v ssa.Value) bool {
+		v = core.Unwrap(v)
+		if cv, ok := v.(*ssa.Convert); ok {
+			v = cv.X
+		}
+		call, ok := v.(*ssa.Call)
+		if !ok {
+			return false
+		}
+		if b, ok := call.Call.Value.(*ssa.Builtin); !ok || b.Name() != "len" {
+			return false
+		}
+		ex, ok := call.Call.Args[0].(*ssa.Extract)
+		if !ok || ex.Index != 0 {
+			return false
+		}
+		src, ok := ex.Tuple.(*ssa.Call)
+		if !ok {
+			return false
+		}
+		o := core.Callee(src)
+		return o != nil && o.Name() == "ByteArrayValueToByteSlice"
+	}
+	isZero := func(v ssa.Value) bool {
+		c, ok := v.(*ssa.Const)
+		return ok && c.Value != nil && c.Value.ExactString() == "0"
+	}
+	n := 0
+	for _, b := range fn.Blocks {
+		if len(b.Instrs) == 0 {
+			continue
+		}
+		iff, ok := b.Instrs[len(b.Instrs)-1].(*ssa.If)
+		if !ok {
+			continue
+		}
+		t, f := b.Succs[0], b.Succs[1]
+		if reach(t, nilRets) == reach(f, nilRets) && reach(t, someRets) == reach(f, someRets) {
+			continue // does not decide between nil and a result
+		}
+		n++
+		key := core.SSAKey(outer) + ": deciding branch #" + strconv.Itoa(n)
+		cond := iff.Cond
+		for {
+			if u, ok := cond.(*ssa.UnOp); ok && u.Op == token.NOT {
+				cond = u.X
+				continue
+			}
+			break
+		}
+		bo, ok := cond.(*ssa.BinOp)
+		form := ""
+		if ok {
+			switch {
+			case (bo.Op == token.NEQ || bo.Op == token.EQL) && (core.IsErrorType(bo.X.Type()) || core.IsErrorType(bo.Y.Type())):
+				// the error must be the one of ByteArrayValueToByteSlice
+				for _, v := range []ssa.Value{bo.X, bo.Y} {
+					if ex, ok := v.(*ssa.Extract); ok {
+						if src, ok := ex.Tuple.(*ssa.Call); ok {
+							if o := core.Callee(src); o != nil && o.Name() == "ByteArrayValueToByteSlice" {
+								form = "error test of ByteArrayValueToByteSlice"
+							}
+						}
+					}
+				}
+			case bo.Op == token.NEQ && ((isByteLength(bo.X) && isZero(bo.Y)) || (isByteLength(bo.Y) && isZero(bo.X))):
+				form = "byteLength != 0"
+			case bo.Op == token.GTR && isLenOfBytes(bo.X) && isByteLength(bo.Y), bo.Op == token.LSS && isByteLength(bo.X) && isLenOfBytes(bo.Y):
+				form = "len(bytes) > byteLength"
+			}
+		}
+		r.Check(form != "", rule, key, cond.Pos(), form,
+			"a condition other than the byte-array error, `byteLength != 0` or `len(bytes) > byteLength` decides whether nil is returned: fromBigEndianBytes must return nil exactly for inputs longer than the type's size")
+	}
+	r.Floor(rule, 3)
 }
